@@ -33,13 +33,14 @@ Record cst := {
   sent : nat -> list item; got : nat -> list item; lossless : nat -> bool;
   ends : nat -> nat; regs : nat -> nat;            (* endmarker callbacks fired / callback registrations *)
   errs_in : nat -> nat; errs_out : nat -> nat;     (* CLOSE_ERROR frames handled / RemoteErrors raised to a consumer *)
-  eofs : nat -> nat                                (* EOFErrors raised *)
+  eofs : nat -> nat;                               (* EOFErrors raised *)
+  fin : bool                                       (* the receiver thread ran its epilogue (connection over) *)
 }.
 
 Inductive clab :=
 | LPeerSend (id : nat) (x : item) | LPeerEnd (id : nat) (k : endkind)
 | LNew (id : nat) | LDrop (id : nat)
-| LRecv | LGet (t id : nat) | LReput (t : nat) | LSetCb (id : nat) (wanted : bool).
+| LRecv | LGet (t id : nat) | LReput (t : nat) | LSetCb (id : nat) (wanted : bool) | LFinish.
 
 Definition fupd {A} (f : nat -> A) (i : nat) (v : A) : nat -> A := fun j => if Nat.eqb j i then v else f j.
 Fixpoint upd {A} (l : list A) (i : nat) (x : A) : list A :=
@@ -60,54 +61,56 @@ Definition local_close (c : chan) (k : endkind) : chan :=
        errs := match k with KCloseErr => S (errs c) | _ => errs c end;
        cb := None |}
   else {| alive := false; q := q c; closed := closed c; rclosed := rclosed c; errs := errs c; cb := None |}.
+(* a Channel object that user code can still hold: registered, or closed by the peer (a dropped object is neither) *)
+Definition held (c : chan) : bool := alive c || rclosed c.
 Definition fires (c : chan) : nat := match cb c with Some true => 1 | _ => 0 end.
 
 Definition set_cs (s : cst) (f : nat -> chan) : cst :=
   {| wire := wire s; cs := f; thr := thr s; sent := sent s; got := got s; lossless := lossless s;
-     ends := ends s; regs := regs s; errs_in := errs_in s; errs_out := errs_out s; eofs := eofs s |}.
+     ends := ends s; regs := regs s; errs_in := errs_in s; errs_out := errs_out s; eofs := eofs s; fin := fin s |}.
 
 Definition cstep (c : ccfg) (s : cst) (l : clab) : option cst :=
   match l with
   | LPeerSend id x =>
       Some {| wire := wire s ++ [FData id x]; cs := cs s; thr := thr s; sent := fupd (sent s) id (sent s id ++ [x]); got := got s;
-              lossless := lossless s; ends := ends s; regs := regs s; errs_in := errs_in s; errs_out := errs_out s; eofs := eofs s |}
+              lossless := lossless s; ends := ends s; regs := regs s; errs_in := errs_in s; errs_out := errs_out s; eofs := eofs s; fin := fin s |}
   | LPeerEnd id k =>
       Some {| wire := wire s ++ [FEnd id k]; cs := cs s; thr := thr s; sent := sent s; got := got s;
-              lossless := lossless s; ends := ends s; regs := regs s; errs_in := errs_in s; errs_out := errs_out s; eofs := eofs s |}
+              lossless := lossless s; ends := ends s; regs := regs s; errs_in := errs_in s; errs_out := errs_out s; eofs := eofs s; fin := fin s |}
   | LNew id =>
       (* ChannelFactory.new(id) with no live object under that id: a fresh Channel (items still queued in a
          forgotten object are out of the accounting) *)
       let ch := cs s id in
-      if alive ch || existsb (fun p => match p with CHold j => Nat.eqb j id | _ => false end) (thr s)
+      if fin s || alive ch || existsb (fun p => match p with CHold j => Nat.eqb j id | _ => false end) (thr s)
          || (match cb ch with Some _ => true | None => false end) then None
       else Some {| wire := wire s; cs := fupd (cs s) id {| alive := true; q := Some []; closed := false; rclosed := false; errs := 0; cb := cb ch |};
                    thr := thr s; sent := sent s; got := got s;
                    lossless := (match q ch with Some (_ :: _) => fupd (lossless s) id false | _ => lossless s end);
-                   ends := ends s; regs := regs s; errs_in := errs_in s; errs_out := errs_out s; eofs := eofs s |}
+                   ends := ends s; regs := regs s; errs_in := errs_in s; errs_out := errs_out s; eofs := eofs s; fin := fin s |}
   | LDrop id =>
       (* the last reference to the Channel object goes away *)
       let ch := cs s id in
       if alive ch then Some {| wire := wire s; cs := fupd (cs s) id {| alive := false; q := q ch; closed := closed ch; rclosed := rclosed ch; errs := errs ch; cb := cb ch |};
                                thr := thr s; sent := sent s; got := got s; lossless := lossless s;
-                               ends := ends s; regs := regs s; errs_in := errs_in s; errs_out := errs_out s; eofs := eofs s |}
+                               ends := ends s; regs := regs s; errs_in := errs_in s; errs_out := errs_out s; eofs := eofs s; fin := fin s |}
       else None
   | LRecv =>
-      match wire s with
+      match (if fin s then [] else wire s) with
       | [] => None
       | FData id x :: w =>
           let ch := cs s id in
           match cb ch with
           | Some _ => (* callback(data), even if the channel object is gone *)
               Some {| wire := w; cs := cs s; thr := thr s; sent := sent s; got := fupd (got s) id (got s id ++ [x]);
-                      lossless := lossless s; ends := ends s; regs := regs s; errs_in := errs_in s; errs_out := errs_out s; eofs := eofs s |}
+                      lossless := lossless s; ends := ends s; regs := regs s; errs_in := errs_in s; errs_out := errs_out s; eofs := eofs s; fin := fin s |}
           | None =>
               match (if alive ch then q ch else None) with
               | Some lq => Some {| wire := w; cs := fupd (cs s) id {| alive := alive ch; q := Some (lq ++ [Item x]); closed := closed ch; rclosed := rclosed ch; errs := errs ch; cb := cb ch |};
                                    thr := thr s; sent := sent s; got := got s;
-                                   lossless := lossless s; ends := ends s; regs := regs s; errs_in := errs_in s; errs_out := errs_out s; eofs := eofs s |}
+                                   lossless := lossless s; ends := ends s; regs := regs s; errs_in := errs_in s; errs_out := errs_out s; eofs := eofs s; fin := fin s |}
               | None => (* drop data *)
                   Some {| wire := w; cs := cs s; thr := thr s; sent := sent s; got := got s;
-                          lossless := fupd (lossless s) id false; ends := ends s; regs := regs s; errs_in := errs_in s; errs_out := errs_out s; eofs := eofs s |}
+                          lossless := fupd (lossless s) id false; ends := ends s; regs := regs s; errs_in := errs_in s; errs_out := errs_out s; eofs := eofs s; fin := fin s |}
               end
           end
       | FEnd id k :: w =>
@@ -115,20 +118,20 @@ Definition cstep (c : ccfg) (s : cst) (l : clab) : option cst :=
           Some {| wire := w; cs := fupd (cs s) id (local_close ch k); thr := thr s; sent := sent s; got := got s;
                   lossless := lossless s; ends := fupd (ends s) id (ends s id + fires ch); regs := regs s;
                   errs_in := (match k with KCloseErr => fupd (errs_in s) id (S (errs_in s id)) | _ => errs_in s end);
-                  errs_out := errs_out s; eofs := eofs s |}
+                  errs_out := errs_out s; eofs := eofs s; fin := fin s |}
       end
   | LGet t id =>
-      match nth_error (thr s) t, q (cs s id) with
+      match nth_error (thr s) t, (if held (cs s id) then q (cs s id) else None) with
       | Some CIdle, Some (Item x :: lq) =>
           let ch := cs s id in
           Some {| wire := wire s; cs := fupd (cs s) id {| alive := alive ch; q := Some lq; closed := closed ch; rclosed := rclosed ch; errs := errs ch; cb := cb ch |};
                   thr := thr s; sent := sent s; got := fupd (got s) id (got s id ++ [x]);
-                  lossless := lossless s; ends := ends s; regs := regs s; errs_in := errs_in s; errs_out := errs_out s; eofs := eofs s |}
+                  lossless := lossless s; ends := ends s; regs := regs s; errs_in := errs_in s; errs_out := errs_out s; eofs := eofs s; fin := fin s |}
       | Some CIdle, Some (End :: lq) =>
           let ch := cs s id in
           Some {| wire := wire s; cs := fupd (cs s) id {| alive := alive ch; q := Some lq; closed := closed ch; rclosed := rclosed ch; errs := errs ch; cb := cb ch |};
                   thr := upd (thr s) t (CHold id); sent := sent s; got := got s;
-                  lossless := lossless s; ends := ends s; regs := regs s; errs_in := errs_in s; errs_out := errs_out s; eofs := eofs s |}
+                  lossless := lossless s; ends := ends s; regs := regs s; errs_in := errs_in s; errs_out := errs_out s; eofs := eofs s; fin := fin s |}
       | _, _ => None
       end
   | LReput t =>
@@ -142,14 +145,14 @@ Definition cstep (c : ccfg) (s : cst) (l : clab) : option cst :=
                   thr := upd (thr s) t CIdle; sent := sent s; got := got s; lossless := lossless s; ends := ends s; regs := regs s;
                   errs_in := errs_in s;
                   errs_out := (match errs ch with O => errs_out s | S _ => fupd (errs_out s) id (S (errs_out s id)) end);
-                  eofs := (match errs ch with O => fupd (eofs s) id (S (eofs s id)) | S _ => eofs s end) |}
+                  eofs := (match errs ch with O => fupd (eofs s) id (S (eofs s id)) | S _ => eofs s end); fin := fin s |}
       | _ => None
       end
   | LSetCb id wanted =>
       let ch := cs s id in
       if negb (setcb_atomic c) then None (* the non-atomic variant is not part of the verified configuration *)
       else
-      match q ch with
+      match (if held ch then q ch else None) with
       | None => None                                  (* "has callback already registered" *)
       | Some lq =>
           let hasend := negb (Nat.eqb (qends lq) 0) in
@@ -158,7 +161,7 @@ Definition cstep (c : ccfg) (s : cst) (l : clab) : option cst :=
             Some {| wire := wire s; cs := fupd (cs s) id {| alive := alive ch; q := None; closed := closed ch; rclosed := rclosed ch; errs := errs ch; cb := None |};
                     thr := thr s; sent := sent s; got := fupd (got s) id (got s id ++ qitems lq);
                     lossless := lossless s; ends := fupd (ends s) id (ends s id + (if wanted then 1 else 0)); regs := fupd (regs s) id (regs s id + (if wanted then 1 else 0));
-                    errs_in := errs_in s; errs_out := errs_out s; eofs := eofs s |}
+                    errs_in := errs_in s; errs_out := errs_out s; eofs := eofs s; fin := fin s |}
           else
             Some {| wire := wire s;
                     cs := fupd (cs s) id {| alive := alive ch; q := None; closed := closed ch; rclosed := rclosed ch; errs := errs ch;
@@ -166,8 +169,15 @@ Definition cstep (c : ccfg) (s : cst) (l : clab) : option cst :=
                     thr := thr s; sent := sent s; got := fupd (got s) id (got s id ++ qitems lq);
                     lossless := lossless s; ends := ends s;
                     regs := (if closed ch || rclosed ch then regs s else fupd (regs s) id (regs s id + (if wanted then 1 else 0)));
-                    errs_in := errs_in s; errs_out := errs_out s; eofs := eofs s |}
+                    errs_in := errs_in s; errs_out := errs_out s; eofs := eofs s; fin := fin s |}
       end
+  | LFinish =>
+      (* the receiver thread's epilogue, ChannelFactory._finished_receiving: finished = True, every registered
+         channel _local_close(id, sendonly=True), every registered callback unregistered (endmarker fires) *)
+      if fin s then None
+      else Some {| wire := wire s; cs := fun id => local_close (cs s id) KLast; thr := thr s; sent := sent s; got := got s;
+                   lossless := lossless s; ends := fun id => ends s id + fires (cs s id); regs := regs s;
+                   errs_in := errs_in s; errs_out := errs_out s; eofs := eofs s; fin := true |}
   end.
 
 Fixpoint crun (c : ccfg) (ls : list clab) (s : cst) : cst :=
@@ -175,4 +185,4 @@ Fixpoint crun (c : ccfg) (ls : list clab) (s : cst) : cst :=
 
 Definition cinit (nthreads : nat) : cst :=
   {| wire := []; cs := fun _ => chan0; thr := repeat CIdle nthreads; sent := fun _ => []; got := fun _ => []; lossless := fun _ => true;
-     ends := fun _ => 0; regs := fun _ => 0; errs_in := fun _ => 0; errs_out := fun _ => 0; eofs := fun _ => 0 |}.
+     ends := fun _ => 0; regs := fun _ => 0; errs_in := fun _ => 0; errs_out := fun _ => 0; eofs := fun _ => 0; fin := false |}.
